@@ -24,6 +24,7 @@ type Env struct {
 	loopEntry *State
 	depth     int
 	inOld     bool
+	noRename  bool
 }
 
 type specErr struct{ msg string }
@@ -213,6 +214,17 @@ func (env *Env) ident(name string) *Val {
 	if env.pkg != nil {
 		if obj := env.pkg.Scope().Lookup(name); obj != nil {
 			return env.object(obj)
+		}
+	}
+	if !env.noRename {
+		fn := env.ex.fn
+		if env.fr != nil {
+			fn = env.fr.fn
+		}
+		if alt, ok := renamedLocal(fn, name); ok {
+			n := *env
+			n.noRename = true
+			return n.ident(alt)
 		}
 	}
 	env.fail("unknown identifier %s", name)
@@ -511,8 +523,13 @@ func (env *Env) binop(e *Expr) *Val {
 			return scalar(Iff(a.T, b.T), boolT)
 		}
 	}
-	a := env.rvalue(env.eval(e.Args[0]))
-	b := env.rvalue(env.eval(e.Args[1]))
+	ra, rb := env.eval(e.Args[0]), env.eval(e.Args[1])
+	if (e.Name == "==" || e.Name == "!=") && ((ra.K == VAddr && isUntypedNil(rb)) || (rb.K == VAddr && isUntypedNil(ra))) {
+		// the address of a variable, field or element is never nil
+		return scalar(boolTerm(e.Name == "!="), boolT)
+	}
+	a := env.rvalue(ra)
+	b := env.rvalue(rb)
 	switch e.Name {
 	case "==", "!=":
 		var eq *Term
@@ -958,7 +975,12 @@ func (env *Env) specCall(sf *SpecFunc, e *Expr) *Val {
 	}
 	args := make([]*Val, len(e.Args))
 	for i, a := range e.Args {
-		args[i] = env.rvalue(env.eval(a))
+		raw := env.eval(a)
+		if raw.K == VAddr && strings.HasPrefix(sf.Params[i].Type, "*") {
+			args[i] = raw // an interior pointer passed where the spec function takes a pointer
+			continue
+		}
+		args[i] = env.rvalue(raw)
 	}
 	if sf.Uninter {
 		var ts []*Term
@@ -984,7 +1006,9 @@ func (env *Env) specCall(sf *SpecFunc, e *Expr) *Val {
 		ty, srt := denv.resolveType(p.Type)
 		a := args[i]
 		if ty != nil {
-			if a.K == VScalar && (isUntypedInt(a) || isUntypedNil(a)) {
+			if _, isPtr := ty.Underlying().(*types.Pointer); isPtr && a.K == VAddr {
+				// keep the address
+			} else if a.K == VScalar && (isUntypedInt(a) || isUntypedNil(a)) {
 				a = scalar(env.coerceTo(a, shapeOf(ty).Sort), ty)
 			} else if a.Ty == nil || !sameShape(a, ty) {
 				if a.K == VScalar && shapeOf(ty).K == ShScalar && a.T.Sort.Name == shapeOf(ty).Sort.Name {
@@ -1076,4 +1100,11 @@ func coerceUntyped(t *Term, s *Sort) *Term {
 		}
 	}
 	return nil
+}
+
+func boolTerm(b bool) *Term {
+	if b {
+		return TTrue
+	}
+	return TFalse
 }
